@@ -8,6 +8,8 @@ import Dmn.Model.RefParserLayout
 * `(c06 rt <mode> <tree>)` → `(rt (toks …) <parse> <surface>)`: the rendering of the tree
   and what `Ref.parse` / `Ref.parseSurface` make of it.
 * `(c06 parse (toks …))` → `(p <parse> <surface>)`.
+* `(c06 drops <mode> <tree>)` → `(d ((toks …) <parse> <surface>) …)`: every rendering with one pair of
+  parentheses that the printer writes — at any depth — left out.
 * `(c06 needs <tree>)` → `(b …)`: `needsParens` of every direct child, in print order.
 * `(c06 esc <form> <c>)` → `(e <model> <spelling…>)`: what the lexer model makes of the
   escape `form ∈ {u4, u6, sur}` spelling the code point, and the hex digit values written.
@@ -44,6 +46,10 @@ def tokSexp : Tok → Sexp
   | .exp => .atom "exp" | .instance => .atom "instance" | .kof => .atom "of"
   | .lparen => .atom "lp" | .rparen => .atom "rp" | .lbrack => .atom "lb" | .rbrack => .atom "rb"
   | .dot => .atom "dot" | .comma => .atom "comma"
+  | .kif => .atom "if" | .kthen => .atom "then" | .kelse => .atom "else" | .kfor => .atom "for"
+  | .kreturn => .atom "return" | .ksome => .atom "some" | .kevery => .atom "every"
+  | .ksatisfies => .atom "satisfies" | .kfunction => .atom "function"
+  | .lbrace => .atom "lbr" | .rbrace => .atom "rbr" | .colon => .atom "colon" | .ellipsis => .atom "dots"
 
 def tokOfSexp : Sexp → Option Tok
   | .list [.atom "n", n] => (Sexp.nat? n).map .name
@@ -59,6 +65,40 @@ def tokOfSexp : Sexp → Option Tok
   | .atom "lp" => some .lparen | .atom "rp" => some .rparen
   | .atom "lb" => some .lbrack | .atom "rb" => some .rbrack
   | .atom "dot" => some .dot | .atom "comma" => some .comma
+  | .atom "if" => some .kif | .atom "then" => some .kthen | .atom "else" => some .kelse
+  | .atom "for" => some .kfor | .atom "return" => some .kreturn | .atom "some" => some .ksome
+  | .atom "every" => some .kevery | .atom "satisfies" => some .ksatisfies
+  | .atom "function" => some .kfunction
+  | .atom "lbr" => some .lbrace | .atom "rbr" => some .rbrace | .atom "colon" => some .colon
+  | .atom "dots" => some .ellipsis
+  | _ => none
+
+def braName : Bra → String
+  | .round => "round" | .rev => "rev" | .square => "square"
+def braOfName : String → Option Bra
+  | "round" => some .round | "rev" => some .rev | "square" => some .square | _ => none
+def cmpName : Cmp → String
+  | .lt => "lt" | .le => "le" | .gt => "gt" | .ge => "ge"
+def cmpOfName : String → Option Cmp
+  | "lt" => some .lt | "le" => some .le | "gt" => some .gt | "ge" => some .ge | _ => none
+def endSexp : End → Sexp
+  | .qn q qs => .list (.atom "q" :: Sexp.ofNat q :: qs.map Sexp.ofNat)
+  | .num n => .list [.atom "u", Sexp.ofNat n]
+  | .lit k => .list [.atom "l", Sexp.ofNat k]
+def endOfSexp : Sexp → Option End
+  | .list (.atom "q" :: q :: qs) => do
+    let q ← Sexp.nat? q
+    let qs ← qs.mapM Sexp.nat?
+    pure (.qn q qs)
+  | .list [.atom "u", n] => (Sexp.nat? n).map .num
+  | .list [.atom "l", n] => (Sexp.nat? n).map .lit
+  | _ => none
+def keySexp : Key → Sexp
+  | .name n => .list [.atom "k", .atom "n", Sexp.ofNat n]
+  | .str k => .list [.atom "k", .atom "s", Sexp.ofNat k]
+def keyOfSexp : Sexp → Option Key
+  | .list [.atom "k", .atom "n", n] => (Sexp.nat? n).map .name
+  | .list [.atom "k", .atom "s", n] => (Sexp.nat? n).map .str
   | _ => none
 
 mutual
@@ -73,9 +113,31 @@ partial def treeSexp : Tree → Sexp
   | .path e n => .list [.atom "path", treeSexp e, Sexp.ofNat n]
   | .filter e i => .list [.atom "filter", treeSexp e, treeSexp i]
   | .call f as => .list (.atom "call" :: treeSexp f :: argsSexp as)
+  | .callNamed f n v bs => .list (.atom "calln" :: treeSexp f :: bindsSexp (.cons n v bs))
+  | .inList e a b more => .list (.atom "inl" :: treeSexp e :: treeSexp a :: treeSexp b :: argsSexp more)
+  | .ite c a b => .list [.atom "if", treeSexp c, treeSexp a, treeSexp b]
+  | .forS v d its body => .list (.atom "for" :: (itersSexp (.single v d its) ++ [treeSexp body]))
+  | .forR v lo hi its body => .list (.atom "for" :: (itersSexp (.range v lo hi its) ++ [treeSexp body]))
+  | .quant ev v d qs body =>
+    .list (.atom "quant" :: .atom (if ev then "every" else "some") :: (bindsSexp (.cons v d qs) ++ [treeSexp body]))
+  | .fn ps body => .list [.atom "fn", .list (.atom "p" :: ps.map Sexp.ofNat), treeSexp body]
+  | .list items => .list (.atom "list" :: argsSexp items)
+  | .ctx es => .list (.atom "ctx" :: entriesSexp es)
+  | .range b1 lo hi b2 => .list [.atom "range", .atom (braName b1), endSexp lo, endSexp hi, .atom (braName b2)]
+  | .utest c e => .list [.atom "ut", .atom (cmpName c), endSexp e]
 partial def argsSexp : Args → List Sexp
   | .nil => []
   | .cons a as => treeSexp a :: argsSexp as
+partial def bindsSexp : Binds → List Sexp
+  | .nil => []
+  | .cons n v bs => .list [.atom "b", Sexp.ofNat n, treeSexp v] :: bindsSexp bs
+partial def entriesSexp : Entries → List Sexp
+  | .nil => []
+  | .cons k v es => .list [.atom "e", keySexp k, treeSexp v] :: entriesSexp es
+partial def itersSexp : Iters → List Sexp
+  | .nil => []
+  | .single v d its => .list [.atom "s", Sexp.ofNat v, treeSexp d] :: itersSexp its
+  | .range v lo hi its => .list [.atom "r", Sexp.ofNat v, treeSexp lo, treeSexp hi] :: itersSexp its
 end
 
 mutual
@@ -111,6 +173,50 @@ partial def treeOfSexp : Sexp → Option Tree
     let f ← treeOfSexp f
     let as ← argsOfSexp as
     pure (.call f as)
+  | .list (.atom "calln" :: f :: bs) => do
+    let f ← treeOfSexp f
+    match ← bindsOfSexp bs with
+    | .cons n v bs => pure (.callNamed f n v bs)
+    | .nil => none
+  | .list (.atom "inl" :: e :: a :: b :: more) => do
+    let e ← treeOfSexp e
+    let a ← treeOfSexp a
+    let b ← treeOfSexp b
+    let more ← argsOfSexp more
+    pure (.inList e a b more)
+  | .list [.atom "if", c, a, b] => do
+    let c ← treeOfSexp c
+    let a ← treeOfSexp a
+    let b ← treeOfSexp b
+    pure (.ite c a b)
+  | .list (.atom "for" :: rest) => do
+    let body ← treeOfSexp (← rest.getLast?)
+    match ← itersOfSexp rest.dropLast with
+    | .single v d its => pure (.forS v d its body)
+    | .range v lo hi its => pure (.forR v lo hi its body)
+    | .nil => none
+  | .list (.atom "quant" :: .atom q :: rest) => do
+    let ev ← (match q with | "every" => some true | "some" => some false | _ => none)
+    let body ← treeOfSexp (← rest.getLast?)
+    match ← bindsOfSexp rest.dropLast with
+    | .cons v d qs => pure (.quant ev v d qs body)
+    | .nil => none
+  | .list [.atom "fn", .list (.atom "p" :: ps), body] => do
+    let ps ← ps.mapM Sexp.nat?
+    let body ← treeOfSexp body
+    pure (.fn ps body)
+  | .list (.atom "list" :: items) => (argsOfSexp items).map .list
+  | .list (.atom "ctx" :: es) => (entriesOfSexp es).map .ctx
+  | .list [.atom "range", .atom b1, lo, hi, .atom b2] => do
+    let b1 ← braOfName b1
+    let lo ← endOfSexp lo
+    let hi ← endOfSexp hi
+    let b2 ← braOfName b2
+    pure (.range b1 lo hi b2)
+  | .list [.atom "ut", .atom c, e] => do
+    let c ← cmpOfName c
+    let e ← endOfSexp e
+    pure (.utest c e)
   | _ => none
 partial def argsOfSexp : List Sexp → Option Args
   | [] => some .nil
@@ -118,6 +224,36 @@ partial def argsOfSexp : List Sexp → Option Args
     let a ← treeOfSexp a
     let as ← argsOfSexp as
     pure (.cons a as)
+partial def bindsOfSexp : List Sexp → Option Binds
+  | [] => some .nil
+  | .list [.atom "b", n, v] :: bs => do
+    let n ← Sexp.nat? n
+    let v ← treeOfSexp v
+    let bs ← bindsOfSexp bs
+    pure (.cons n v bs)
+  | _ => none
+partial def entriesOfSexp : List Sexp → Option Entries
+  | [] => some .nil
+  | .list [.atom "e", k, v] :: es => do
+    let k ← keyOfSexp k
+    let v ← treeOfSexp v
+    let es ← entriesOfSexp es
+    pure (.cons k v es)
+  | _ => none
+partial def itersOfSexp : List Sexp → Option Iters
+  | [] => some .nil
+  | .list [.atom "s", v, d] :: its => do
+    let v ← Sexp.nat? v
+    let d ← treeOfSexp d
+    let its ← itersOfSexp its
+    pure (.single v d its)
+  | .list [.atom "r", v, lo, hi] :: its => do
+    let v ← Sexp.nat? v
+    let lo ← treeOfSexp lo
+    let hi ← treeOfSexp hi
+    let its ← itersOfSexp its
+    pure (.range v lo hi its)
+  | _ => none
 end
 
 def resSexp : Option Tree → Sexp
@@ -149,6 +285,9 @@ def childNeeds : Tree → List Bool
   | .path e _ => [needsParens .pathE e]
   | .filter e i => [needsParens .filterE e, needsParens .filterI i]
   | .call f as => needsParens .callF f :: (argsList as).map (needsParens .callArg)
+  | t => match operand t 0 with
+    | some (pos, c) => [needsParens pos c]
+    | none => []
 
 def escForm (form : String) (c : Nat) : Option (Option Nat × List Nat) :=
   match form with
@@ -169,6 +308,14 @@ def handle (args : List Sexp) : String :=
     match toksOfSexp ts with
     | some ts => toString (Sexp.list [.atom "p", resSexp (parse ts), resSexp (parseSurface ts)])
     | none => "(error bad-request)"
+  | [.atom "drops", m, t] =>
+    -- every rendering with one pair of parentheses (at any depth) left out, with what the
+    -- reference parser makes of it
+    match modeOf m, treeOfSexp t with
+    | some m, some t =>
+      toString (Sexp.list (.atom "d" :: (drops m t).map (fun ts =>
+        Sexp.list [toksSexp ts, resSexp (parse ts), resSexp (parseSurface ts)])))
+    | _, _ => "(error bad-request)"
   | [.atom "needs", t] =>
     match treeOfSexp t with
     | some t => toString (Sexp.list (.atom "b" :: (childNeeds t).map Sexp.ofBool))
@@ -196,7 +343,10 @@ def handle (args : List Sexp) : String :=
       ++ [Sexp.list [.atom "neg", Sexp.ofNat negMin], Sexp.list [.atom "hi", Sexp.ofNat hiMin],
           Sexp.list [.atom "between", Sexp.ofNat betweenLvl], Sexp.list [.atom "instance", Sexp.ofNat instLvl],
           Sexp.list [.atom "dot", Sexp.ofNat dotLvl], Sexp.list [.atom "paren", Sexp.ofNat parenLvl],
-          Sexp.list [.atom "brack", Sexp.ofNat brackLvl]]))
+          Sexp.list [.atom "brack", Sexp.ofNat brackLvl],
+          Sexp.list [.atom "ite", Sexp.ofNat iteMin], Sexp.list [.atom "for", Sexp.ofNat forMin],
+          Sexp.list [.atom "some", Sexp.ofNat someMin], Sexp.list [.atom "every", Sexp.ofNat everyMin],
+          Sexp.list [.atom "fn", Sexp.ofNat fnMin]]))
   | _ => "(error unknown-request)"
 
 end Dmn.Driver.C06
